@@ -245,6 +245,16 @@ def _rank_part(ctx, repo, f, rf, view, freq, count_stores):
                 ps = symexec(p)
                 if ps.counts.get(rvar, 0) != 1:
                     adv = False
+                    continue
+                # the step is a positive constant: ranks strictly increase along the sorted sequence
+                try:
+                    from ..symx import Norm, Unsupported
+                    nm_ = Norm()
+                    d_ = (nm_.visit(ps.env[rvar]) - nm_.visit(ast.Name(id=rvar, ctx=ast.Load()))).as_const()
+                except Exception:
+                    d_ = None
+                if d_ is None or d_ <= 0:
+                    adv = False
             val_ok = adv
     ctx.check('R-ORDER/rank', f, 'rank store', key_ok and val_ok,
               'the rank construction `%s: %s` does not give each token of the sorted sequence its own rank' % (U(key_e)[:40], U(val_e)[:40]),
